@@ -22,10 +22,10 @@ Lemma esc_map {A B} (g : A -> B) c2 (k : string -> A) e :
   g (esc_dispatch c2 k e) = esc_dispatch c2 (fun X => g (k X)) (g e).
 Proof. destruct c2 as [|[[] [] [] [] [] [] [] []] [|? ?]]; reflexivity. Qed.
 
-Lemma lex_str_shift d : forall f s pos tmp start endpos,
-  lex_str f s (pos + d) tmp (start + d) (endpos + d) = sh3 d (lex_str f s pos tmp start endpos).
+Lemma lex_str_shift d : forall curly f s pos tmp start endpos,
+  lex_str curly f s (pos + d) tmp (start + d) (endpos + d) = sh3 d (lex_str curly f s pos tmp start endpos).
 Proof.
-  induction f as [|f IH]; intros s pos tmp start endpos; [reflexivity|].
+  intros curly. induction f as [|f IH]; intros s pos tmp start endpos; [reflexivity|].
   rewrite !lex_str_S. destruct s as [|c r]; [reflexivity|].
   destruct (byte_of c =? 92)%N.
   - destruct (take_char r) as [[c2 r2]|]; [|reflexivity]. cbv zeta.
@@ -34,7 +34,7 @@ Proof.
     apply esc_ext. intros X. apply IH.
   - destruct (byte_of c =? 34)%N.
     + cbv zeta. destruct (next_is_ws_or_end r); reflexivity.
-    + destruct (starts_rdq (String c r)).
+    + destruct (curly && starts_rdq (String c r)).
       * cbv zeta. replace (pos + d + 3) with (pos + 3 + d) by lia.
         destruct (next_is_ws_or_end (str_drop 3 (String c r))); reflexivity.
       * change (S (pos + d)) with (S pos + d). apply IH.
@@ -133,10 +133,10 @@ Proof.
   destruct (lrest l) as [|c r] eqn:Hl; [reflexivity|].
   destruct (byte_of c =? 34)%N.
   { change (S (lpos l + d)) with (S (lpos l) + d). rewrite lex_str_shift.
-    destruct (lex_str (S (String.length r)) r (S (lpos l)) "" (lpos l) (llen l)) as [[t rest] pos]. reflexivity. }
+    destruct (lex_str false (S (String.length r)) r (S (lpos l)) "" (lpos l) (llen l)) as [[t rest] pos]. reflexivity. }
   destruct (starts_ldq (String c r)).
   { replace (lpos l + d + 3) with (lpos l + 3 + d) by lia. rewrite lex_str_shift.
-    destruct (lex_str _ _ (lpos l + 3) "" (lpos l) (llen l)) as [[t rest] pos]. reflexivity. }
+    destruct (lex_str _ _ _ (lpos l + 3) "" (lpos l) (llen l)) as [[t rest] pos]. reflexivity. }
   destruct (byte_of c =? 124)%N.
   { change (S (lpos l + d)) with (S (lpos l) + d). rewrite lex_bits_shift.
     destruct (lex_bits r (S (lpos l)) bvb_empty (llen l)) as [[t rest] pos]. reflexivity. }
